@@ -2,4 +2,6 @@
 
 package keeper
 
-func verifFailpoint(string) error { return nil }
+import sdk "github.com/cosmos/cosmos-sdk/types"
+
+func verifFailpoint(sdk.Context, string) error { return nil }
